@@ -107,7 +107,7 @@ def _integer_distances_and_histogram(X, Y, gamma, gamma_int, f, medians,
 		for j in range(Y.shape[-1]):
 			z = X_norm[i + nq_csum] + Y_norm[j]
 			
-			for k in range(Y.shape[0]):
+			for k in range(min(X.shape[0], Y.shape[0])):
 				z -= 2 * X[k, i + nq_csum] * Y[k, j]
 			  
 			z = -math.sqrt(z) if z > 0 else 0
